@@ -248,7 +248,10 @@ pub fn eval(op: &str, t: &mut Toks) -> R<String> {
                 }
                 for (idx, m) in [(i, &mi), (j, &mj)] {
                     if m == "o" && owned[idx].is_none() {
-                        owned[idx] = Some(PreparedGeometry::from(gs[idx].clone()));
+                        // every second operand is a *clone* of its prepared geometry (the original is dropped): a clone
+                        // must answer exactly like the original
+                        let prep = PreparedGeometry::from(gs[idx].clone());
+                        owned[idx] = Some(if idx % 2 == 1 { prep.clone() } else { prep });
                     }
                     if m == "b" && borrowed[idx].is_none() {
                         borrowed[idx] = Some(PreparedGeometry::from(&gs[idx]));
